@@ -313,7 +313,8 @@ def check_cli_stress(run, case):
             last = False
             delay = rng.uniform(0.05, 0.9)
             args = ['-r', name, '-s', sn] + (['--load'] if cyc else [])
-            out, err, rc, to = cli.run_cli('pcfg_guesser.py', args, stdin_mode='timed', data=[(delay, b'q\n')], timeout=300, max_out=256 << 20)
+            # every process of the history runs under another hash seed, as separate invocations do by default
+            out, err, rc, to = cli.run_cli('pcfg_guesser.py', args, stdin_mode='timed', data=[(delay, b'q\n')], timeout=300, max_out=256 << 20, hashseed=str(1 + 7919 * cyc))
             run.ev('cli_runs'); run.ev('cli_stress_runs')
             if to:
                 run.inconc('cli watchdog'); return
@@ -330,7 +331,7 @@ def check_cli_stress(run, case):
             run.ev('cli_quits_mid_run')
         else:
             # still interrupted after the last cycle: finish it
-            out, err, rc, to = cli.run_cli('pcfg_guesser.py', ['-r', name, '-s', sn, '--load'], stdin_mode='open', timeout=300, max_out=256 << 20)
+            out, err, rc, to = cli.run_cli('pcfg_guesser.py', ['-r', name, '-s', sn, '--load'], stdin_mode='open', timeout=300, max_out=256 << 20, hashseed='424242')
             run.ev('cli_runs')
             if to:
                 run.inconc('cli watchdog'); return
